@@ -43,6 +43,12 @@ pub struct Violation {
     pub detail: String,
 }
 
+/// output directory for evidence/ and replays/ (default /verif; MC_OUT_DIR overrides it so that
+/// runs against scratch copies of the repository do not overwrite the real evidence)
+pub fn out_dir() -> String {
+    std::env::var("MC_OUT_DIR").unwrap_or_else(|_| "/verif".to_string())
+}
+
 pub fn fxhash<T: Hash>(t: &T) -> u64 {
     let mut h = std::collections::hash_map::DefaultHasher::new();
     t.hash(&mut h);
@@ -78,7 +84,7 @@ pub struct Report {
 impl Report {
     pub fn new(property: &'static str, level: &'static str, tier: Tier, seed: u64) -> Self {
         // replays of an earlier run of this property are stale
-        if let Ok(rd) = std::fs::read_dir("/verif/replays") {
+        if let Ok(rd) = std::fs::read_dir(format!("{}/replays", out_dir())) {
             for e in rd.flatten() {
                 if e.file_name().to_string_lossy().starts_with(&format!("{property}-")) {
                     let _ = std::fs::remove_file(e.path());
@@ -230,7 +236,7 @@ impl Report {
         let mut known_seen = Vec::new();
         let mut viol_total: u64 = 0;
         let mut viol_list = Vec::new();
-        let _ = std::fs::create_dir_all("/verif/replays");
+        let _ = std::fs::create_dir_all(format!("{}/replays", out_dir()));
         let violations = self.violations.into_inner().unwrap();
         let mut n = 0;
         for (sig, (count, kept)) in &violations {
@@ -242,7 +248,7 @@ impl Report {
                 known_seen.push(json!({"signature": sig, "cases": count}));
                 // still write one replay so it can be reproduced
                 if let Some(v) = kept.first() {
-                    let path = format!("/verif/replays/{}-known-{}.json", self.property, n);
+                    let path = format!("{}/replays/{}-known-{}.json", out_dir(), self.property, n);
                     n += 1;
                     let _ = std::fs::write(
                         &path,
@@ -256,7 +262,7 @@ impl Report {
             }
             viol_total += count;
             for v in kept {
-                let path = format!("/verif/replays/{}-{}.json", self.property, n);
+                let path = format!("{}/replays/{}-{}.json", out_dir(), self.property, n);
                 n += 1;
                 let _ = std::fs::write(
                     &path,
@@ -334,8 +340,8 @@ impl Report {
             "violation_list": viol_list,
             "machinery_errors": merrs,
         });
-        let _ = std::fs::create_dir_all("/verif/evidence");
-        let path = format!("/verif/evidence/{}.json", self.property);
+        let _ = std::fs::create_dir_all(format!("{}/evidence", out_dir()));
+        let path = format!("{}/evidence/{}.json", out_dir(), self.property);
         std::fs::write(&path, serde_json::to_string_pretty(&ev).unwrap() + "\n")
             .expect("write evidence");
         println!(
